@@ -32,3 +32,13 @@ func verifTrace(dp *DPoVP, op string, block *types.Block, height uint32, hash co
 	verifEngineSeq++ // under chainLock of the traced engine (one traced engine per process)
 	VerifEngineHook(dp, VerifEngineEvent{Seq: verifEngineSeq, Op: op, Block: block, Height: height, Hash: hash, Sigs: sigs})
 }
+
+// VerifSignGate, when set, is called inside SignBlock between the two writes of the signature cache
+// (a scheduling point for the conformance harness; it must return).
+var VerifSignGate func(blockHash common.Hash)
+
+func verifSignGate(blockHash common.Hash) {
+	if g := VerifSignGate; g != nil {
+		g(blockHash)
+	}
+}
